@@ -16,12 +16,12 @@ func init() {
 		Run:       runC17,
 		Technique: "static analysis: sentinel result-use rule, must-pass-through path queries, must-lockset dataflow, atomic-only census and sibling agreement on go/ssa of container/bytes/blocks.go",
 		Explanation: "R1: the sentinel (-1) of the geometry function GetBlocksInSegment is tested at every call site on an edge that dominates every arithmetic use of the result. " +
-			"R2: every success exit of ArrangeBlock passes a store that sets a bit in a slice obtained from the underlying buffer and an atomic decrement of the free counter; every success exit of FreeBlock passes the clearing store, dominated by the 'bit is set' edge (no double free), and the atomic increment. " +
-			"R3: header bytes (slices from bts.Buffer) and the free hint are read/written in ArrangeBlock/FreeBlock only with the allocator mutex held; every Lock reaches an Unlock on all paths including error exits. " +
+			"R2: every success exit of ArrangeBlock passes a store that sets a bit in a slice obtained from the underlying buffer and an atomic decrement of the free counter; every success exit of FreeBlock passes the clearing store, dominated by the 'bit is set' edge (no double free), and the atomic increment. Success exits are exit points (a return of merged results counts per alternative); when the body of the operation runs as a function literal that the method invokes on every path and that reports through the method's captured error variable, the literal's points that leave that variable nil are the success exits. The set store is guarded by the 'bit is clear' edge (directly, through a flag that is only true where the test succeeded, or by choosing the bit as TrailingZeros of the non-zero complement of the header byte). The free counter is an int32 word used through sync/atomic functions or a typed atomic.Int32. " +
+			"R3: header bytes (slices from bts.Buffer) and the free hint are read/written in the functions that carry out ArrangeBlock/FreeBlock (the method, its function literals, the private helpers it calls) only with the allocator mutex held - held on entry of a helper/literal when every place that runs it holds it (static call on the same receiver, direct call, wrapper that calls its function parameter under the lock); every Lock reaches an Unlock on all paths including error exits. " +
 			"R4: every success exit of the constructor passes the routine that recomputes the free counter from the headers; elsewhere the counter is touched only through sync/atomic. " +
-			"R5: Block and the header-coordinate helper reject segm>=segments and idx<0 before computing an offset. " +
-			"R6: in FreeBlock every store hint=x is dominated by the hint>x edge (a hint that moves up hides free blocks). " +
-			"R7: every product that involves both the blocks-per-segment field and the block-size field uses (blocksPerSegment+1): a segment occupies its header block too (sibling agreement on the stride). R8: every path to a non-sentinel result of the geometry function takes an edge that bounds the block size from above (without it (8*bs+1)*bs overflows int and the wrapped geometry is accepted). R9: the constructor compares a value derived from the storage size with a bound derived from the int32 counter maximum before it succeeds.",
+			"R5: Block and the header-coordinate helper reject segm>=segments and idx<0 before computing an offset (uses of the segment number are followed through merges of result variables). " +
+			"R6: in the functions that carry out FreeBlock every store hint=x is dominated by the hint>x edge (a hint that moves up hides free blocks). " +
+			"R7: every product that involves both the blocks-per-segment field and the block-size field uses (blocksPerSegment+1): a segment occupies its header block too (sibling agreement on the stride; floor: each of allocate, free, recount computes the stride in the functions that carry it out). R8: every path to a non-sentinel result of the geometry function takes an edge that bounds the block size from above (without it (8*bs+1)*bs overflows int and the wrapped geometry is accepted). R9: the constructor compares a value derived from the storage size with a bound derived from the int32 counter maximum before it hands out an allocator.",
 		NotDecided: "disjointness of block byte ranges and the index<->offset arithmetic as values; behaviour of the memory mapping; fairness under concurrency.",
 	})
 }
@@ -35,23 +35,64 @@ func runC17(c *Ctx) {
 	geom := c.RequireFn(c.P.Func("container/bytes", "GetBlocksInSegment"), "bytes.GetBlocksInSegment")
 	arrange := c.RequireFn(c.P.MethodOf(blocks, "ArrangeBlock"), "Blocks.ArrangeBlock")
 	free := c.RequireFn(c.P.MethodOf(blocks, "FreeBlock"), "Blocks.FreeBlock")
-	c.RequireFn(c.P.MethodOf(blocks, "Block"), "Blocks.Block")
+	blockFn := c.RequireFn(c.P.MethodOf(blocks, "Block"), "Blocks.Block")
 	mutex := c.oneField("blocks.mutex", blocks, func(f *types.Var) bool { return ir.IsNamed(f.Type(), "sync", "Mutex") })
-	avail := c.oneField("blocks.available", blocks, func(f *types.Var) bool { return types.Identical(f.Type(), types.Typ[types.Int32]) })
+	// the free counter: the 32-bit integer word of the allocator, kept as a plain int32 updated through the sync/atomic
+	// functions or as a typed atomic.Int32
+	avail := c.oneField("blocks.available", blocks, func(f *types.Var) bool {
+		return types.Identical(f.Type(), types.Typ[types.Int32]) || xcAtomicIntWidth(f.Type()) == 32
+	})
 	bufIface := c.P.LookupType("container/bytes", "Buffer")
 	bts := c.oneField("blocks.buffer", blocks, func(f *types.Var) bool { return namedOf(f.Type()) == bufIface && bufIface != nil })
 	_ = bts
+	pkgFns := c.P.FuncsOf("container/bytes")
+	// counterStore: the counter is (re)initialised - a plain store to the word or the Store of the typed atomic
+	counterStore := func(in ssa.Instruction) bool {
+		if _, _, ok := storeToField(in, avail); ok {
+			return true
+		}
+		if op, addr, _, ok := ir.AtomicCall(in); ok && op == "Store" {
+			_, isAvail := fieldAddrOf(addr, avail)
+			return isAvail
+		}
+		return false
+	}
+	// recount routine = the function that initialises the counter (resolved early: it is a role, the normal form keeps it)
+	var recount *ssa.Function
+	var recountDup []ssa.Instruction
+	for _, fn := range pkgFns {
+		ir.Instrs(fn, func(in ssa.Instruction) {
+			if counterStore(in) {
+				if recount != nil && recount != fn {
+					recountDup = append(recountDup, in)
+				}
+				recount = fn
+			}
+		})
+	}
+	if recount != nil {
+		c.Role("blocks.recount", relName(recount), recount.Pos())
+	}
+	// the functions that carry out an operation: the API method, its function literals and the private helpers it calls
+	roleFns := map[*ssa.Function]bool{ctor: true, geom: true, arrange: true, free: true, blockFn: true}
+	if recount != nil {
+		roleFns[recount] = true
+	}
+	arrangeGroup := xcGroup(arrange, roleFns)
+	freeGroup := xcGroup(free, roleFns)
 	// hint = the int field FreeBlock stores to; segments = int field compared in Block's rejection
 	var hint *types.Var
 	{
 		var cands []*types.Var
 		for _, f := range fieldsWhere(blocks, func(f *types.Var) bool { return types.Identical(f.Type(), types.Typ[types.Int]) }) {
 			found := false
-			ir.Instrs(free, func(in ssa.Instruction) {
-				if _, _, ok := storeToField(in, f); ok {
-					found = true
-				}
-			})
+			for _, fn := range freeGroup {
+				ir.Instrs(fn, func(in ssa.Instruction) {
+					if _, _, ok := storeToField(in, f); ok {
+						found = true
+					}
+				})
+			}
 			if found {
 				cands = appendUniq(cands, f)
 			}
@@ -78,20 +119,23 @@ func runC17(c *Ctx) {
 		}
 		return nil, false
 	}
+	// an atomic add of delta to the counter, in either style (atomic.AddInt32(&x.f, d) / x.f.Add(d))
 	atomicAdd := func(in ssa.Instruction, delta int64) bool {
-		call, ok := in.(*ssa.Call)
-		if !ok || ir.CalleeFullName(call) != "sync/atomic.AddInt32" {
+		if _, isCall := in.(*ssa.Call); !isCall {
 			return false
 		}
-		if _, isAvail := fieldAddrOf(call.Call.Args[0], avail); !isAvail {
+		op, addr, args, ok := ir.AtomicCall(in)
+		if !ok || op != "Add" || len(args) != 1 {
 			return false
 		}
-		k, isC := ir.ConstInt(call.Call.Args[1])
+		if _, isAvail := fieldAddrOf(addr, avail); !isAvail {
+			return false
+		}
+		k, isC := ir.ConstInt(args[0])
 		return isC && k == delta
 	}
 
 	// R1 sentinel
-	pkgFns := c.P.FuncsOf("container/bytes")
 	for _, fn := range pkgFns {
 		for _, call := range callsTo(fn, geom) {
 			// arithmetic uses of the result
@@ -193,27 +237,126 @@ func runC17(c *Ctx) {
 		bo, ok := ir.Resolve(s.Val).(*ssa.BinOp)
 		return ok && (bo.Op == token.AND || bo.Op == token.AND_NOT)
 	}
-	successExit := func(fn *ssa.Function) func(ssa.Instruction) bool {
-		idx := ir.ErrResultIndex(fn)
-		return func(in ssa.Instruction) bool {
-			ret, ok := in.(*ssa.Return)
-			if !ok || !ir.IsReturn(in) {
-				return false
+	// "every success exit of the operation passes the effect". The effect is looked for in the functions that carry out the
+	// operation. Normally it sits in the API method itself: the query runs there, the success exits being the exit points
+	// (a return of a merged result counts per alternative) whose error is nil. When the operation's body was moved into a
+	// function literal that the method runs unconditionally (under the lock) and that reports through the method's
+	// captured result variable, the query runs in the literal: its success points are the places where it leaves the
+	// captured error nil.
+	effectBeforeSuccess := func(construct string, api *ssa.Function, group []*ssa.Function, effect func(ssa.Instruction) bool, what string) {
+		var holders []*ssa.Function
+		for _, fn := range group {
+			has := false
+			ir.Instrs(fn, func(in ssa.Instruction) {
+				if effect(in) {
+					has = true
+				}
+			})
+			if has {
+				holders = append(holders, fn)
 			}
-			return ir.ClassifyErr(ir.ResultValue(ret, idx), ret.Block()) == ir.ErrNil
 		}
+		if len(holders) == 0 || xcInGroup(holders, api) {
+			targets := map[ssa.Instruction]bool{}
+			for _, pt := range xcExitOutcomes(api) {
+				if pt.Class == ir.ErrNil {
+					targets[pt.At] = true
+				}
+			}
+			if len(targets) == 0 {
+				if len(holders) == 0 {
+					c.Decide("C17.R2", api, construct, nil, false, what+": no function that carries out the operation performs it")
+					return
+				}
+				c.Undecided("C17.R2", api, construct, nil, "no exit of the operation is recognised as a success exit (error provably nil)")
+				return
+			}
+			c.NoPath("C17.R2", construct, nil, ir.Query{Fn: api, Block: effect, Target: func(in ssa.Instruction) bool { return targets[in] }}, what)
+			return
+		}
+		if len(holders) != 1 || holders[0].Parent() != api || holders[0].Signature.Results().Len() != 0 {
+			c.Undecided("C17.R2", api, construct, nil, "the effect is performed in "+xcFnList(holders)+", not in the operation itself, and the way the outcome is handed back is not one the rule follows")
+			return
+		}
+		w := holders[0]
+		// the error the method returns is the captured variable the literal writes, and nobody else writes it
+		idx := ir.ErrResultIndex(api)
+		var cellAlloc *ssa.Alloc
+		linked := idx >= 0
+		for _, ret := range ir.Returns(api) {
+			if !linked {
+				break
+			}
+			u, isLoad := ret.Results[idx].(*ssa.UnOp)
+			if !isLoad || u.Op != token.MUL {
+				linked = false
+				break
+			}
+			a, isAlloc := u.X.(*ssa.Alloc)
+			if !isAlloc || (cellAlloc != nil && cellAlloc != a) {
+				linked = false
+				break
+			}
+			cellAlloc = a
+		}
+		var cell *ssa.FreeVar
+		if linked && cellAlloc != nil {
+			for _, fv := range w.FreeVars {
+				if ir.BindingOf(fv) == ssa.Value(cellAlloc) {
+					cell = fv
+				}
+			}
+			for _, st := range ir.StoresTo(cellAlloc) {
+				if st.Parent() == w {
+					continue
+				}
+				// "return idx, err" of named results stores the variable to itself
+				if u, isLoad := st.Val.(*ssa.UnOp); isLoad && u.Op == token.MUL && u.X == ssa.Value(cellAlloc) {
+					continue
+				}
+				linked = false
+			}
+		}
+		if !linked || cell == nil {
+			c.Undecided("C17.R2", api, construct, nil, "the effect is performed in "+ir.FnName(w)+" and the error the operation returns is not (only) the variable that function reports through")
+			return
+		}
+		// the method runs the literal on every path to an exit
+		wit, err := (ir.Query{Fn: api, Block: func(in ssa.Instruction) bool { return xcSurelyInvokes(in, w, nil, 0) }, Target: ir.IsExit}).Find()
+		if err != nil || wit != nil {
+			c.Undecided("C17.R2", api, construct, nil, "the effect is performed in "+ir.FnName(w)+" which the operation does not run on every path")
+			return
+		}
+		pts, stores := xcStoreOutcomes(w, cell)
+		targets := map[ssa.Instruction]bool{}
+		for _, pt := range pts {
+			if pt.Class != ir.ErrNonNil {
+				targets[pt.At] = true
+			}
+		}
+		// leaving without reporting anything leaves the error nil
+		wit, err = (ir.Query{Fn: w, Block: func(in ssa.Instruction) bool { return effect(in) || stores[in] }, Target: ir.IsExit}).Find()
+		if err != nil {
+			c.Undecided("C17.R2", w, construct, nil, err.Error())
+			return
+		}
+		if wit != nil {
+			c.Decide("C17.R2", w, construct, nil, false, what+": path "+wit.String(c.P))
+			return
+		}
+		c.NoPath("C17.R2", construct, nil, ir.Query{Fn: w, Block: effect, Target: func(in ssa.Instruction) bool { return targets[in] }}, what)
 	}
-	c.NoPath("C17.R2", "allocation sets a header bit", nil, ir.Query{Fn: arrange, Block: isSetBit, Target: successExit(arrange)},
+	effectBeforeSuccess("allocation sets a header bit", arrange, arrangeGroup, isSetBit,
 		"ArrangeBlock can succeed without setting a bit in the header: the allocation is not recorded in the buffer (lost on reopen, handed out twice)")
-	c.NoPath("C17.R2", "allocation decrements the free counter", nil, ir.Query{Fn: arrange, Block: func(in ssa.Instruction) bool { return atomicAdd(in, -1) }, Target: successExit(arrange)},
+	effectBeforeSuccess("allocation decrements the free counter", arrange, arrangeGroup, func(in ssa.Instruction) bool { return atomicAdd(in, -1) },
 		"ArrangeBlock can succeed without decrementing the free counter")
-	c.NoPath("C17.R2", "free clears the header bit", nil, ir.Query{Fn: free, Block: isClearBit, Target: successExit(free)},
+	effectBeforeSuccess("free clears the header bit", free, freeGroup, isClearBit,
 		"FreeBlock can succeed without clearing the header bit")
-	c.NoPath("C17.R2", "free increments the free counter", nil, ir.Query{Fn: free, Block: func(in ssa.Instruction) bool { return atomicAdd(in, 1) }, Target: successExit(free)},
+	effectBeforeSuccess("free increments the free counter", free, freeGroup, func(in ssa.Instruction) bool { return atomicAdd(in, 1) },
 		"FreeBlock can succeed without incrementing the free counter")
 	// the set store is guarded by "bit is clear", the clear store by "bit is set"
 	bitTest := func(b *ssa.BasicBlock, wantSet bool) bool {
-		return hasFactCmp(b, func(cm ir.Cmp) bool {
+		return xcHasFactCmp(b, func(cm ir.Cmp) bool {
 			bo, ok := ir.Resolve(cm.X).(*ssa.BinOp)
 			if !ok || bo.Op != token.AND {
 				return false
@@ -228,58 +371,112 @@ func runC17(c *Ctx) {
 			return cm.Op == token.EQL
 		})
 	}
-	ir.Instrs(arrange, func(in ssa.Instruction) {
-		if isSetBit(in) {
-			c.Decide("C17.R2", arrange, "bit set only when clear", in, bitTest(in.Block(), false), "a header bit is set without the test that it is clear: an allocated block can be handed out again")
+	// the other spelling of "the bit is clear": the bit is chosen as the lowest set bit of the complement of the header
+	// byte, j = bits.TrailingZeros(^b) under ^b != 0 - bit j of ^b is set, so bit j of b is clear
+	lowestZeroChosen := func(st *ssa.Store) bool {
+		or, ok := ir.Resolve(st.Val).(*ssa.BinOp)
+		if !ok || or.Op != token.OR {
+			return false
 		}
-	})
-	ir.Instrs(free, func(in ssa.Instruction) {
-		if isClearBit(in) {
-			c.Decide("C17.R2", free, "bit cleared only when set (no double free)", in, bitTest(in.Block(), true), "a header bit is cleared without the test that it is set: a double free inflates the free counter")
+		for _, m := range []ssa.Value{or.X, or.Y} {
+			shl, isShl := xcStripConv(m).(*ssa.BinOp)
+			if !isShl || shl.Op != token.SHL {
+				continue
+			}
+			if k, isC := ir.ConstInt(xcStripConv(shl.X)); !isC || k != 1 {
+				continue
+			}
+			call, isCall := xcStripConv(shl.Y).(*ssa.Call)
+			if !isCall || len(call.Call.Args) != 1 {
+				continue
+			}
+			switch ir.CalleeFullName(call) {
+			case "math/bits.TrailingZeros8", "math/bits.TrailingZeros16", "math/bits.TrailingZeros32", "math/bits.TrailingZeros64", "math/bits.TrailingZeros":
+			default:
+				continue
+			}
+			compl, isU := xcStripConv(call.Call.Args[0]).(*ssa.UnOp)
+			if !isU || compl.Op != token.XOR {
+				continue
+			}
+			ld, isLd := ir.Resolve(compl.X).(*ssa.UnOp)
+			if !isLd || ld.Op != token.MUL {
+				continue
+			}
+			if ia, isIA := ld.X.(*ssa.IndexAddr); !isIA || !isHdrSlice(ia.X) {
+				continue
+			}
+			// the complement is known to be non-zero where the bit is set
+			if xcHasFactCmp(st.Block(), func(cm ir.Cmp) bool {
+				k, isC := ir.ConstInt(cm.Y)
+				return isC && k == 0 && xcStripConv(cm.X) == ssa.Value(compl) && (cm.Op == token.NEQ || cm.Op == token.GTR)
+			}) {
+				return true
+			}
 		}
-	})
-	c.R.Floor("C17.R2", 6)
-
-	// R3 lockset
-	for _, fn := range []*ssa.Function{arrange, free} {
-		ls := ir.ComputeLockset(fn, nil)
-		mpath := "recv." + mutex.Name()
+		return false
+	}
+	for _, fn := range arrangeGroup {
 		ir.Instrs(fn, func(in ssa.Instruction) {
-			if ia, ok := hdrAccess(in); ok {
-				c.Decide("C17.R3", fn, "header byte accessed under the lock", ia, ls.Held(in, mpath), "a header byte is read or written without the allocator lock: concurrent allocations/frees on the same header byte lose updates")
-			}
-			if fa, ok := in.(*ssa.FieldAddr); ok && ir.FieldOf(fa) == hint {
-				c.Decide("C17.R3", fn, "free hint accessed under the lock", fa, ls.Held(in, mpath), "the free hint is accessed without the allocator lock")
-			}
-			if p, acq, _ := ir.LockOp(in); acq && p == mpath {
-				c.NoPath("C17.R3", "Lock reaches Unlock on all paths", in, ir.Query{Fn: fn, From: in,
-					Block: func(x ssa.Instruction) bool {
-						p2, _, rel := ir.LockOp(x)
-						return rel && p2 == mpath
-					}, Target: ir.IsExit}, "an exit is reached with the allocator lock still held")
+			if isSetBit(in) {
+				c.Decide("C17.R2", fn, "bit set only when clear", in, bitTest(in.Block(), false) || lowestZeroChosen(in.(*ssa.Store)), "a header bit is set without the test that it is clear: an allocated block can be handed out again")
 			}
 		})
+	}
+	for _, fn := range freeGroup {
+		ir.Instrs(fn, func(in ssa.Instruction) {
+			if isClearBit(in) {
+				c.Decide("C17.R2", fn, "bit cleared only when set (no double free)", in, bitTest(in.Block(), true), "a header bit is cleared without the test that it is set: a double free inflates the free counter")
+			}
+		})
+	}
+	c.R.Floor("C17.R2", 6)
+
+	// R3 lockset: over the functions that carry out the two operations. A helper or function literal that is only ever run
+	// with the mutex held (by a static call on the same receiver, by a direct call, or through a wrapper that calls its
+	// function parameter under the lock) is analysed with the mutex held on entry.
+	{
+		mpath := "recv." + mutex.Name()
+		locks := newXcLocks(pkgFns, mpath)
+		var r3fns []*ssa.Function
+		for _, fn := range append(append([]*ssa.Function{}, arrangeGroup...), freeGroup...) {
+			if !xcInGroup(r3fns, fn) {
+				r3fns = append(r3fns, fn)
+			}
+		}
+		for _, fn := range r3fns {
+			fn := fn
+			ls := locks.Lockset(fn)
+			ir.Instrs(fn, func(in ssa.Instruction) {
+				if ia, ok := hdrAccess(in); ok {
+					c.Decide("C17.R3", fn, "header byte accessed under the lock", ia, ls.Held(in, mpath), "a header byte is read or written without the allocator lock: concurrent allocations/frees on the same header byte lose updates")
+				}
+				if fa, ok := in.(*ssa.FieldAddr); ok && ir.FieldOf(fa) == hint {
+					c.Decide("C17.R3", fn, "free hint accessed under the lock", fa, ls.Held(in, mpath), "the free hint is accessed without the allocator lock")
+				}
+				if _, isCall := in.(*ssa.Call); !isCall {
+					return
+				}
+				if p, acq, _ := ir.LockOp(in); acq && p == mpath {
+					c.NoPath("C17.R3", "Lock reaches Unlock on all paths", in, ir.Query{Fn: fn, From: in,
+						Block: func(x ssa.Instruction) bool {
+							p2, _, rel := ir.LockOp(x)
+							return rel && p2 == mpath
+						}, Target: ir.IsExit}, "an exit is reached with the allocator lock still held")
+				}
+			})
+		}
 	}
 	c.R.Floor("C17.R3", 10)
 
 	// R4 reopen
 	{
-		// recount routine = the method that stores into the counter non-atomically
-		var recount *ssa.Function
-		for _, fn := range pkgFns {
-			ir.Instrs(fn, func(in ssa.Instruction) {
-				if _, _, ok := storeToField(in, avail); ok {
-					if recount != nil && recount != fn {
-						c.Decide("C17.R4", fn, "counter stored only by the recount routine", in, false, "the free counter is stored non-atomically in a second place")
-					}
-					recount = fn
-				}
-			})
+		for _, in := range recountDup {
+			c.Decide("C17.R4", in.Parent(), "counter stored only by the recount routine", in, false, "the free counter is stored non-atomically in a second place")
 		}
 		if recount == nil {
 			c.Decide("C17.R4", ctor, "constructor recounts the free blocks", nil, false, "no routine recomputes the free counter from the headers")
 		} else {
-			c.Role("blocks.recount", relName(recount), recount.Pos())
 			c.NoPath("C17.R4", "constructor recounts the free blocks", nil, ir.Query{Fn: ctor,
 				Block: func(in ssa.Instruction) bool { return isCallTo(in, recount) },
 				Target: func(in ssa.Instruction) bool {
@@ -382,28 +579,41 @@ func runC17(c *Ctx) {
 			ir.Instrs(fn, func(in ssa.Instruction) {
 				switch x := in.(type) {
 				case *ssa.BinOp:
-					if (x.Op == token.MUL || x.Op == token.ADD) && (ir.Resolve(x.X) == ssa.Value(segm) || ir.Resolve(x.Y) == ssa.Value(segm)) {
+					// (through a merge as well: the single-exit spelling "res = segm" on the accepting branch, a dummy on the other)
+					if (x.Op == token.MUL || x.Op == token.ADD) && (xcMayBe(x.X, segm) || xcMayBe(x.Y, segm)) {
 						uses = append(uses, in)
 					}
 				case *ssa.Return:
 					for _, rv := range x.Results {
-						if ir.Resolve(rv) == ssa.Value(segm) {
+						if xcMayBe(rv, segm) {
 							uses = append(uses, in)
+							break
 						}
 					}
 				}
 			})
 			for _, u := range uses {
-				upper := hasFactCmp(u.Block(), func(cm ir.Cmp) bool {
-					if ir.Resolve(cm.X) != ssa.Value(segm) || cm.Op != token.LSS {
-						return false
+				upper := xcHasFactCmp(u.Block(), func(cm ir.Cmp) bool {
+					if ir.Resolve(cm.X) == ssa.Value(segm) && cm.Op == token.LSS {
+						_, isSeg := loadOfField(cm.Y, segments)
+						return isSeg
 					}
-					_, isSeg := loadOfField(cm.Y, segments)
-					return isSeg
+					// segments > segm
+					if ir.Resolve(cm.Y) == ssa.Value(segm) && cm.Op == token.GTR {
+						_, isSeg := loadOfField(cm.X, segments)
+						return isSeg
+					}
+					return false
 				})
-				lower := hasFactCmp(u.Block(), func(cm ir.Cmp) bool {
-					k, isC := ir.ConstInt(cm.Y)
-					return ir.Resolve(cm.X) == ssa.Value(idxP) && isC && ((cm.Op == token.GEQ && k == 0) || (cm.Op == token.GTR && k == -1))
+				lower := xcHasFactCmp(u.Block(), func(cm ir.Cmp) bool {
+					if k, isC := ir.ConstInt(cm.Y); isC && ir.Resolve(cm.X) == ssa.Value(idxP) {
+						return (cm.Op == token.GEQ && k == 0) || (cm.Op == token.GTR && k == -1)
+					}
+					// 0 <= idx
+					if k, isC := ir.ConstInt(cm.X); isC && ir.Resolve(cm.Y) == ssa.Value(idxP) {
+						return (cm.Op == token.LEQ && k == 0) || (cm.Op == token.LSS && k == -1)
+					}
+					return false
 				})
 				c.Decide("C17.R5", fn, "segment number used only for an index in range", u, upper && lower, "a segment number derived from the index is used although idx >= 0 (tested on the index itself) and segm < segments do not both dominate the use: small negative indices map to segment 0 and address the bookkeeping header as if it were a data block")
 			}
@@ -418,11 +628,9 @@ func runC17(c *Ctx) {
 			if !ok {
 				return
 			}
-			switch fn {
-			case arrange:
-				return
-			case free:
-				okG := hasFactCmp(in.Block(), func(cm ir.Cmp) bool {
+			switch {
+			case xcInGroup(freeGroup, fn):
+				okG := xcHasFactCmp(in.Block(), func(cm ir.Cmp) bool {
 					_, isHint := loadOfField(cm.X, hint)
 					if isHint && ir.Resolve(cm.Y) == ir.Resolve(val) && cm.Op == token.GTR {
 						return true
@@ -431,6 +639,9 @@ func runC17(c *Ctx) {
 					return isHintY && ir.Resolve(cm.X) == ir.Resolve(val) && cm.Op == token.LSS
 				})
 				c.Decide("C17.R6", fn, "hint only lowered on free", in, okG, "FreeBlock stores the hint without the test hint > x: the hint can move above a free block, which is then never found (ErrExhausted while blocks are free)")
+			case xcInGroup(arrangeGroup, fn):
+				// the scan advances the hint over full bytes
+				return
 			default:
 				// a hint computed elsewhere (e.g. on open) is a value statement this rule cannot decide; R7 checks its stride
 			}
@@ -440,7 +651,9 @@ func runC17(c *Ctx) {
 
 	// R7 stride agreement
 	{
+		strideFns := map[*ssa.Function]bool{}
 		for _, fn := range pkgFns {
+			fn := fn
 			if fn == ctor {
 				continue
 			}
@@ -484,11 +697,28 @@ func runC17(c *Ctx) {
 					}
 				}
 				if hasSize && (bare || plus) {
+					strideFns[fn] = true
 					c.Decide("C17.R7", fn, "segment stride uses blocksPerSegment+1", bo, plus && !bare, "a byte offset is computed as blocksPerSegment*blockSize: every other site uses (blocksPerSegment+1)*blockSize because a segment contains its header block; the position lands inside user data")
 				}
 			})
 		}
-		c.R.Floor("C17.R7", 4)
+		// floor: each of the three operations that need the stride (allocate, free, recount on open) computes it somewhere
+		// in the functions that carry it out - the number of product expressions depends on how often the code names the
+		// product, the number of operations does not
+		covered := 0
+		groups := [][]*ssa.Function{arrangeGroup, freeGroup}
+		if recount != nil {
+			groups = append(groups, xcGroup(recount, map[*ssa.Function]bool{ctor: true, geom: true, arrange: true, free: true, blockFn: true}))
+		}
+		for _, g := range groups {
+			for _, fn := range g {
+				if strideFns[fn] {
+					covered++
+					break
+				}
+			}
+		}
+		c.xcFloorUnits("C17.R7", 3, covered, "operation(s) (allocate, free, recount)")
 	}
 	// R8: the geometry function bounds the block size from above. A segment takes (8*bs+1)*bs bytes and the offsets
 	// are computed in int: without an upper bound on bs the product wraps (bs = 1<<30 on 64 bit, the everyday
@@ -534,7 +764,7 @@ func runC17(c *Ctx) {
 	// R9: the free counter is narrower than the block count (int32 vs int): the constructor rejects storages with
 	// more blocks than the counter can hold - a dominating comparison of a value derived from the storage size with a
 	// bound derived from the counter's maximum lies on every path to the recount.
-	if b, ok := avail.Type().Underlying().(*types.Basic); ok && b.Kind() == types.Int32 {
+	if b, ok := avail.Type().Underlying().(*types.Basic); (ok && b.Kind() == types.Int32) || xcAtomicIntWidth(avail.Type()) == 32 {
 		var fromSize func(v ssa.Value, d int) bool
 		fromSize = func(v ssa.Value, d int) bool {
 			if d > 5 || v == nil {
@@ -570,6 +800,10 @@ func runC17(c *Ctx) {
 		}
 		for _, ret := range ir.Returns(ctor) {
 			if !possibleSuccessExit(ctor, ret) {
+				continue
+			}
+			// an exit that hands out no allocator is not a success, whatever is known about its error
+			if ir.IsNilConst(ir.Resolve(ir.ResultValue(ret, 0))) {
 				continue
 			}
 			ok := hasFactCmp(ret.Block(), func(cm ir.Cmp) bool {
